@@ -178,6 +178,12 @@ func Observe(path string) (*Node, error) {
 		for _, e := range entries {
 			c, err := Observe(filepath.Join(path, e.Name()))
 			if err != nil {
+				if os.IsPermission(err) {
+					// Listable but not searchable: the entries cannot be
+					// examined, the directory as a whole is unreadable.
+					n.Err, n.Children = err.Error(), nil
+					return n, nil
+				}
 				return nil, err
 			}
 			if c != nil {
